@@ -379,43 +379,29 @@ structure RawOK (c : RawCell) : Prop where
   refs_le : c.refs.length ≤ 7
   pruned : c.ty = tyPruned → 2 + LevelMask.hashIndex c.mask * (hashSize + depthSize) ≤ (c.bits.length + 7) / 8
 
-theorem parseCell_spec (cd0 : Bytes) (refSize : Nat) (s : Nat) (hr : refSize ≤ 4) :
-    Spec (parseCell cd0 refSize) s
-      (fun r s' => RawOK r.1 ∧ r.2.length + 2 ≤ cd0.length ∧ s' + r.2.length ≤ s + 296 + cd0.length)
+theorem parseCellBody_spec (d1 d2 : Nat) (cd0 : Bytes) (refSize : Nat) (s : Nat) (hr : refSize ≤ 4)
+    (hd1lt : d1 < 256) (hd2lt : d2 < 256) :
+    Spec (parseCellBody (descr d1 d2) cd0 refSize) s
+      (fun r s' => RawOK r.1 ∧ r.2.length ≤ cd0.length ∧ s' + r.2.length ≤ s + 296 + cd0.length)
       (fun s' => s' ≤ s + 296 + cd0.length) := by
-  unfold parseCell
-  apply spec_ite
-  · intro _; exact spec_fail (by omega)
-  intro h2
-  have h2 : 2 ≤ cd0.length := (lenLt_nat_false cd0 2).1 (by simpa using h2)
-  obtain ⟨d1b, hd1, _⟩ := head_ok cd0 (by omega)
+  unfold parseCellBody
+  simp only [descr]
   apply spec_bind
-  apply spec_lift_ok hd1
-  apply spec_bind
-  apply spec_lift_ok (sliceFrom_ok _ _ (by omega))
-  obtain ⟨d2b, hd2, _⟩ := head_ok (cd0.drop 1) (by simp; omega)
-  apply spec_bind
-  apply spec_lift_ok hd2
-  apply spec_bind
-  apply spec_lift_ok (sliceFrom_ok _ _ h2)
-  have hd1lt : d1b.toNat < 256 := d1b.toNat_lt
-  have hd2lt : d2b.toNat < 256 := d2b.toNat_lt
-  generalize d1b.toNat = d1 at *
-  generalize d2b.toNat = d2 at *
-  apply spec_bind
-  apply spec_mono (Q := fun (cd : Bytes) s' => s' = s ∧ cd.length + 2 ≤ cd0.length) (E := fun s' => s' = s)
-  · split
-    · apply spec_ite
+  apply spec_mono (Q := fun (cd : Bytes) s' => s' = s ∧ cd.length ≤ cd0.length) (E := fun s' => s' = s)
+  · apply spec_ite
+    · intro _
+      apply spec_ite
       · intro _; exact spec_fail rfl
       intro ho
       have ho := (lenLt_false _ _).1 (by simpa using ho)
-      have ho : LevelMask.hashesCount (d1 / 32) * (hashSize + depthSize) ≤ (cd0.drop 2).length := by exact_mod_cast ho
+      have ho : LevelMask.hashesCount (d1 / 32) * (hashSize + depthSize) ≤ cd0.length := by exact_mod_cast ho
       apply spec_lift_ok (sliceFrom_ok _ _ ho)
       refine ⟨rfl, ?_⟩
-      simp only [List.length_drop] at *
+      simp only [List.length_drop]
       omega
-    · apply spec_pure
-      exact ⟨rfl, by simp only [List.length_drop]; omega⟩
+    · intro _
+      apply spec_pure
+      exact ⟨rfl, by omega⟩
   · rintro cd s1 ⟨hs1, hcd⟩
     subst hs1
     have hdbs : d2 / 2 + d2 % 2 ≤ 128 := by omega
@@ -429,8 +415,9 @@ theorem parseCell_spec (cd0 : Bytes) (refSize : Nat) (s : Nat) (hr : refSize ≤
     have hl : d2 / 2 + d2 % 2 + refSize * (d1 % 8) ≤ cd.length := (lenLt_nat_false _ _).1 (by simpa using hl)
     apply spec_bind
     apply spec_mono (Q := fun (ty : Nat) s' => s' = s1 ∧ ty < 256) (E := fun s' => s' = s1)
-    · split
-      · apply spec_ite
+    · apply spec_ite
+      · intro _
+        apply spec_ite
         · intro _; exact spec_fail rfl
         intro hd
         obtain ⟨t, ht, _⟩ := readN_ok 1 cd 0 (by omega) (by unfold two64; omega)
@@ -438,7 +425,8 @@ theorem parseCell_spec (cd0 : Bytes) (refSize : Nat) (s : Nat) (hr : refSize ≤
         apply spec_lift_ok ht
         apply spec_pure
         exact ⟨rfl, Nat.mod_lt _ (by omega)⟩
-      · apply spec_pure
+      · intro _
+        apply spec_pure
         exact ⟨rfl, by omega⟩
     · rintro ty s2 ⟨hs2, hty⟩
       subst hs2
@@ -491,6 +479,32 @@ theorem parseCell_spec (cd0 : Bytes) (refSize : Nat) (s : Nat) (hr : refSize ≤
     · intro s' h; omega
   · intro s' h; omega
 
+theorem parseCell_spec (cd0 : Bytes) (refSize : Nat) (s : Nat) (hr : refSize ≤ 4) :
+    Spec (parseCell cd0 refSize) s
+      (fun r s' => RawOK r.1 ∧ r.2.length + 2 ≤ cd0.length ∧ s' + r.2.length ≤ s + 296 + cd0.length)
+      (fun s' => s' ≤ s + 296 + cd0.length) := by
+  unfold parseCell
+  apply spec_ite
+  · intro _; exact spec_fail (by omega)
+  intro h2
+  have h2 : 2 ≤ cd0.length := (lenLt_nat_false cd0 2).1 (by simpa using h2)
+  obtain ⟨d1b, hd1, _⟩ := head_ok cd0 (by omega)
+  apply spec_bind
+  apply spec_lift_ok hd1
+  apply spec_bind
+  apply spec_lift_ok (sliceFrom_ok _ _ (by omega))
+  obtain ⟨d2b, hd2, _⟩ := head_ok (cd0.drop 1) (by simp; omega)
+  apply spec_bind
+  apply spec_lift_ok hd2
+  apply spec_bind
+  apply spec_lift_ok (sliceFrom_ok _ _ h2)
+  apply spec_mono (parseCellBody_spec d1b.toNat d2b.toNat (cd0.drop 2) refSize s hr d1b.toNat_lt d2b.toNat_lt)
+  · rintro ⟨c, rest⟩ s' ⟨hc, hl, hs⟩
+    simp only [List.length_drop] at hl hs ⊢
+    exact ⟨hc, by omega, by omega⟩
+  · intro s' h
+    simp only [List.length_drop] at h
+    omega
 
 theorem parseCells_spec (k : Nat) (cd : Bytes) (refSize : Nat) (s : Nat) (hr : refSize ≤ 4) :
     Spec (parseCells k cd refSize) s
